@@ -2590,8 +2590,45 @@ func (s *ScopedKeyManager) cloneKeyWithVersion(key *hdkeychain.ExtendedKey) (
 
 // InvalidateAccountCache invalidates the cache for the given account, forcing a
 // database read to retrieve the account information.
+//
+// Everything else that was cached on behalf of the account is dropped as well:
+// the managed addresses of the account and the addresses of the account that
+// are waiting to have their private keys derived on the next unlock. This
+// matters when the account only ever existed within a database transaction
+// that was rolled back (e.g. a dry run import): nothing may remain in memory
+// that refers to an account the database doesn't know about, otherwise a later
+// Unlock fails trying to load it.
 func (s *ScopedKeyManager) InvalidateAccountCache(account uint32) {
 	s.mtx.Lock()
 	defer s.mtx.Unlock()
 	delete(s.acctInfo, account)
+
+	// Drop the cached addresses of the account. They are removed from the
+	// map the manager walks when it locks, so remove any clear text
+	// secrets from them now.
+	for key, ma := range s.addrs {
+		if ma.InternalAccount() != account {
+			continue
+		}
+
+		switch addr := ma.(type) {
+		case *managedAddress:
+			addr.lock()
+		case *scriptAddress:
+			addr.lock()
+		}
+		delete(s.addrs, key)
+	}
+
+	// Drop the pending derive-on-unlock entries of the account.
+	pending := s.deriveOnUnlock[:0]
+	for _, info := range s.deriveOnUnlock {
+		if info.managedAddr.InternalAccount() != account {
+			pending = append(pending, info)
+		}
+	}
+	for i := len(pending); i < len(s.deriveOnUnlock); i++ {
+		s.deriveOnUnlock[i] = nil
+	}
+	s.deriveOnUnlock = pending
 }
